@@ -1,13 +1,536 @@
-// Package c10 is the harness for property C10 (runs the real kapacitor code, prints op lines).
+// Package c10 is the harness for property C10: it builds REAL kapacitor stream tasks out of generated chains and
+// forks of where / eval / default / delete / shift / sample / derivative / changeDetect / stateCount / stateDuration /
+// flatten / combine / groupBy nodes (stream edges, and batch edges behind a `|window()`), hangs a recording
+// `@sink()` / `@bsink()` UDF node under EVERY node (a sibling of the transforming child), writes generated points
+// through TaskMaster.WritePoints and prints what every sink saw.
+//
+// Op lines of a case:
+//
+//	node <id> <parent|-> <kind> <key=value …>     the pipeline (node 0 is `stream|from()`)
+//	pt <name> <tags> <fields> <time>              one written point (database db, retention policy rp), in order
+//	run => ok|err:script|err:task|timeout         the task ran to completion after Drain()
+//	sink <id> => <message tokens>                 final view of the messages recorded under node <id>
+//	snap <id> => same | <message tokens>          the private copy taken at ingestion (same = equal to the final view)
 package c10
 
 import (
 	"fmt"
 	"os"
+	"strconv"
+	"strings"
+	"time"
+
+	imodels "github.com/influxdata/influxdb/models"
+	"github.com/influxdata/kapacitor"
+
+	"verifharness/kit"
 )
 
-// Run is replaced by the property's harness.
+type nodeSpec struct {
+	id, parent int
+	kind       string
+	args       map[string]string
+	batchOut   bool
+}
+
+func un(s string) string { v, _ := kit.Unesc(s); return v }
+func atoi(s string) int64 { v, _ := strconv.ParseInt(s, 10, 64); return v }
+
+func splitList(s string) []string {
+	if s == "" || s == "-" {
+		return nil
+	}
+	var out []string
+	for _, x := range strings.Split(s, ",") {
+		out = append(out, un(x))
+	}
+	return out
+}
+
+func strLit(s string) string {
+	return "'" + strings.ReplaceAll(strings.ReplaceAll(s, `\`, `\\`), `'`, `\'`) + "'"
+}
+
+func strList(xs []string) string {
+	var b []string
+	for _, x := range xs {
+		b = append(b, strLit(x))
+	}
+	return strings.Join(b, ", ")
+}
+
+func durLit(ns int64) string {
+	switch {
+	case ns%int64(time.Second) == 0:
+		return fmt.Sprintf("%ds", ns/int64(time.Second))
+	case ns%int64(time.Millisecond) == 0:
+		return fmt.Sprintf("%dms", ns/int64(time.Millisecond))
+	case ns%int64(time.Microsecond) == 0:
+		return fmt.Sprintf("%dus", ns/int64(time.Microsecond))
+	}
+	return fmt.Sprintf("%dns", ns)
+}
+
+func floatLit(bits string) (string, bool) {
+	u, err := strconv.ParseUint(bits, 16, 64)
+	if err != nil {
+		return "", false
+	}
+	f := float64frombits(u)
+	s := strconv.FormatFloat(f, 'f', -1, 64)
+	if !strings.Contains(s, ".") {
+		s += ".0"
+	}
+	return s, true
+}
+
+// valLit renders a canonical field value (i:…, f:…, s:…, b:…) as a TICKscript literal.
+func valLit(v string) (string, bool) {
+	switch {
+	case strings.HasPrefix(v, "i:"):
+		return v[2:], true
+	case strings.HasPrefix(v, "f:"):
+		return floatLit(v[2:])
+	case strings.HasPrefix(v, "s:"):
+		return strLit(un(v[2:])), true
+	case v == "b:1":
+		return "TRUE", true
+	case v == "b:0":
+		return "FALSE", true
+	}
+	return "", false
+}
+
+// exprTick renders a polish-notation expression token (`gt,r:v,i:3`) as a fully parenthesised TICKscript lambda body.
+func exprTick(tok string) (string, bool) {
+	parts := strings.Split(tok, ",")
+	pos := 0
+	var rec func() (string, bool)
+	bin := map[string]string{"eq": "==", "ne": "!=", "lt": "<", "le": "<=", "gt": ">", "ge": ">=", "add": "+", "sub": "-", "mul": "*", "and": "AND", "or": "OR"}
+	rec = func() (string, bool) {
+		if pos >= len(parts) {
+			return "", false
+		}
+		t := parts[pos]
+		pos++
+		if op, ok := bin[t]; ok {
+			a, ok1 := rec()
+			b, ok2 := rec()
+			if !ok1 || !ok2 {
+				return "", false
+			}
+			return "(" + a + " " + op + " " + b + ")", true
+		}
+		if t == "not" {
+			a, ok := rec()
+			return "!(" + a + ")", ok
+		}
+		if strings.HasPrefix(t, "r:") {
+			return `"` + strings.ReplaceAll(strings.ReplaceAll(un(t[2:]), `\`, `\\`), `"`, `\"`) + `"`, true
+		}
+		return valLit(t)
+	}
+	s, ok := rec()
+	if !ok || pos != len(parts) {
+		return "", false
+	}
+	return s, true
+}
+
+func lambdaList(arg string) (string, bool) {
+	var b []string
+	for _, e := range strings.Split(arg, "|") {
+		s, ok := exprTick(e)
+		if !ok {
+			return "", false
+		}
+		b = append(b, "lambda: "+s)
+	}
+	return strings.Join(b, ", "), true
+}
+
+// kvList parses `k=v,k=v` (escaped keys, canonical values) in order.
+func kvList(s string) [][2]string {
+	if s == "" || s == "-" {
+		return nil
+	}
+	var out [][2]string
+	for _, kv := range strings.Split(s, ",") {
+		i := strings.Index(kv, "=")
+		if i < 0 {
+			continue
+		}
+		out = append(out, [2]string{un(kv[:i]), kv[i+1:]})
+	}
+	return out
+}
+
+// nodeTick renders the chain method (and property methods) of one node.
+func nodeTick(n *nodeSpec) (string, bool) {
+	a := n.args
+	var b strings.Builder
+	switch n.kind {
+	case "where":
+		l, ok := lambdaList(a["e"])
+		if !ok {
+			return "", false
+		}
+		b.WriteString("|where(" + l + ")")
+	case "eval":
+		l, ok := lambdaList(a["e"])
+		if !ok {
+			return "", false
+		}
+		b.WriteString("|eval(" + l + ")\n    .as(" + strList(splitList(a["as"])) + ")")
+		if t := splitList(a["tags"]); len(t) > 0 {
+			b.WriteString("\n    .tags(" + strList(t) + ")")
+		}
+		if a["keep"] == "1" {
+			b.WriteString("\n    .keep(" + strList(splitList(a["keeplist"])) + ")")
+		}
+		if a["quiet"] == "1" {
+			b.WriteString("\n    .quiet()")
+		}
+	case "default":
+		b.WriteString("|default()")
+		for _, kv := range kvList(a["f"]) {
+			v, ok := valLit(kv[1])
+			if !ok {
+				return "", false
+			}
+			b.WriteString("\n    .field(" + strLit(kv[0]) + ", " + v + ")")
+		}
+		for _, kv := range kvList(a["t"]) {
+			b.WriteString("\n    .tag(" + strLit(kv[0]) + ", " + strLit(un(kv[1])) + ")")
+		}
+	case "delete":
+		b.WriteString("|delete()")
+		for _, f := range splitList(a["f"]) {
+			b.WriteString("\n    .field(" + strLit(f) + ")")
+		}
+		for _, t := range splitList(a["t"]) {
+			b.WriteString("\n    .tag(" + strLit(t) + ")")
+		}
+	case "shift":
+		d := atoi(a["d"])
+		if d < 0 {
+			b.WriteString("|shift(-" + durLit(-d) + ")")
+		} else {
+			b.WriteString("|shift(" + durLit(d) + ")")
+		}
+	case "sample":
+		if d := atoi(a["d"]); d != 0 {
+			b.WriteString("|sample(" + durLit(d) + ")")
+		} else {
+			b.WriteString("|sample(" + a["n"] + ")")
+		}
+	case "derivative":
+		b.WriteString("|derivative(" + strLit(un(a["f"])) + ")\n    .as(" + strLit(un(a["as"])) + ")\n    .unit(" + durLit(atoi(a["unit"])) + ")")
+		if a["nn"] == "1" {
+			b.WriteString("\n    .nonNegative()")
+		}
+	case "changeDetect":
+		b.WriteString("|changeDetect(" + strList(splitList(a["f"])) + ")")
+	case "stateCount":
+		l, ok := lambdaList(a["e"])
+		if !ok {
+			return "", false
+		}
+		b.WriteString("|stateCount(" + l + ")\n    .as(" + strLit(un(a["as"])) + ")")
+	case "stateDuration":
+		l, ok := lambdaList(a["e"])
+		if !ok {
+			return "", false
+		}
+		b.WriteString("|stateDuration(" + l + ")\n    .as(" + strLit(un(a["as"])) + ")\n    .unit(" + durLit(atoi(a["unit"])) + ")")
+	case "flatten":
+		b.WriteString("|flatten()\n    .on(" + strList(splitList(a["on"])) + ")\n    .delimiter(" + strLit(un(a["delim"])) + ")")
+		if t := atoi(a["tol"]); t != 0 {
+			b.WriteString("\n    .tolerance(" + durLit(t) + ")")
+		}
+		if a["drop"] == "1" {
+			b.WriteString("\n    .dropOriginalFieldName()")
+		}
+	case "combine":
+		l, ok := lambdaList(a["e"])
+		if !ok {
+			return "", false
+		}
+		b.WriteString("|combine(" + l + ")\n    .as(" + strList(splitList(a["as"])) + ")\n    .delimiter(" + strLit(un(a["delim"])) + ")")
+		if t := atoi(a["tol"]); t != 0 {
+			b.WriteString("\n    .tolerance(" + durLit(t) + ")")
+		}
+		if m := atoi(a["max"]); m != 0 {
+			b.WriteString(fmt.Sprintf("\n    .max(%d)", m))
+		}
+	case "groupBy":
+		var ds []string
+		for _, d := range splitList(a["dims"]) {
+			ds = append(ds, strLit(d))
+		}
+		if a["all"] == "1" {
+			ds = append(ds, "*")
+		}
+		b.WriteString("|groupBy(" + strings.Join(ds, ", ") + ")")
+		if x := splitList(a["excl"]); len(x) > 0 {
+			b.WriteString("\n    .exclude(" + strList(x) + ")")
+		}
+		if a["byName"] == "1" {
+			b.WriteString("\n    .byMeasurement()")
+		}
+	case "window":
+		if a["pc"] != "" {
+			b.WriteString("|window()\n    .periodCount(" + a["pc"] + ")\n    .everyCount(" + a["ec"] + ")")
+		} else {
+			b.WriteString("|window()\n    .period(" + durLit(atoi(a["p"])) + ")\n    .every(" + durLit(atoi(a["e"])) + ")")
+		}
+	default:
+		return "", false
+	}
+	return b.String(), true
+}
+
+func buildScript(nodes []*nodeSpec) (string, bool) {
+	var b strings.Builder
+	for _, n := range nodes {
+		if n.id == 0 {
+			if n.kind != "from" {
+				return "", false
+			}
+			b.WriteString("var n0 = stream\n    |from()\n")
+			n.batchOut = false
+		} else {
+			if n.parent < 0 || n.parent >= n.id {
+				return "", false
+			}
+			p := nodes[n.parent]
+			t, ok := nodeTick(n)
+			if !ok {
+				return "", false
+			}
+			switch n.kind {
+			case "window":
+				n.batchOut = true
+			case "combine":
+				n.batchOut = false
+			default:
+				n.batchOut = p.batchOut
+			}
+			fmt.Fprintf(&b, "var n%d = n%d\n    %s\n", n.id, n.parent, t)
+		}
+		if n.batchOut {
+			fmt.Fprintf(&b, "n%d\n    @bsink()\n", n.id)
+		} else {
+			fmt.Fprintf(&b, "n%d\n    @sink()\n", n.id)
+		}
+	}
+	return b.String(), true
+}
+
+func stripObs(l string) string {
+	if i := strings.Index(l, " => "); i >= 0 {
+		return l[:i]
+	}
+	return strings.TrimSuffix(l, " =>")
+}
+
+func parseValue(v string) (interface{}, bool) {
+	switch {
+	case strings.HasPrefix(v, "i:"):
+		return atoi(v[2:]), true
+	case strings.HasPrefix(v, "f:"):
+		u, err := strconv.ParseUint(v[2:], 16, 64)
+		return float64frombits(u), err == nil
+	case strings.HasPrefix(v, "s:"):
+		return un(v[2:]), true
+	case v == "b:1":
+		return true, true
+	case v == "b:0":
+		return false, true
+	}
+	return nil, false
+}
+
+var caseNo int
+
+// execCase runs one case on the real code and returns its lines with observations.
+func execCase(lines []string) (out []string) {
+	var nodes []*nodeSpec
+	var pts []imodels.Point
+	bad := false
+	for _, raw := range lines {
+		t := strings.Fields(stripObs(raw))
+		if len(t) == 0 {
+			continue
+		}
+		switch t[0] {
+		case "node":
+			if len(t) < 4 {
+				bad = true
+				continue
+			}
+			n := &nodeSpec{id: int(atoi(t[1])), parent: -1, kind: t[3], args: map[string]string{}}
+			if t[2] != "-" {
+				n.parent = int(atoi(t[2]))
+			}
+			for _, kv := range t[4:] {
+				if i := strings.Index(kv, "="); i > 0 {
+					n.args[kv[:i]] = kv[i+1:]
+				}
+			}
+			if n.id != len(nodes) {
+				bad = true
+				continue
+			}
+			nodes = append(nodes, n)
+		case "pt":
+			if len(t) != 5 {
+				bad = true
+				continue
+			}
+			tags := map[string]string{}
+			for _, kv := range kvList(t[2]) {
+				tags[kv[0]] = un(kv[1])
+			}
+			fields := imodels.Fields{}
+			for _, kv := range kvList(t[3]) {
+				v, ok := parseValue(kv[1])
+				if !ok {
+					bad = true
+				}
+				fields[kv[0]] = v
+			}
+			p, err := imodels.NewPoint(un(t[1]), imodels.NewTags(tags), fields, time.Unix(0, atoi(t[4])).UTC())
+			if err != nil {
+				bad = true
+				continue
+			}
+			pts = append(pts, p)
+		}
+	}
+	status := "ok"
+	var svc *recSvc
+	var keys []string
+	func() {
+		if bad || len(nodes) == 0 {
+			status = "err:case"
+			return
+		}
+		script, ok := buildScript(nodes)
+		if !ok {
+			status = "err:case"
+			return
+		}
+		tm, err := kit.NewTM(kit.TMOpts{})
+		if err != nil {
+			status = "err:tm"
+			return
+		}
+		defer tm.Close()
+		svc = newRecSvc()
+		tm.TM.UDFService = svc
+		caseNo++
+		et, err := tm.StartStream(fmt.Sprintf("c10_%d", caseNo), script, []kapacitor.DBRP{{Database: "db", RetentionPolicy: "rp"}})
+		if err != nil {
+			if os.Getenv("VERIF_LOG") != "" {
+				fmt.Fprintln(os.Stderr, "task:", err, "\n", script)
+			}
+			status = "err:script"
+			return
+		}
+		for _, p := range pts {
+			if err := tm.TM.WritePoints("db", "rp", imodels.ConsistencyLevelAll, []imodels.Point{p}); err != nil {
+				status = "err:write"
+				break
+			}
+		}
+		tm.TM.Drain()
+		done := make(chan error, 1)
+		go func() { done <- et.Wait() }()
+		select {
+		case err := <-done:
+			if err != nil {
+				if os.Getenv("VERIF_LOG") != "" {
+					fmt.Fprintln(os.Stderr, "task failed:", err, "\n", script)
+				}
+				status = "err:task"
+			}
+		case <-time.After(60 * time.Second):
+			status = "timeout"
+		}
+		keys = svc.sinkKeys()
+	}()
+	for _, raw := range lines {
+		line := stripObs(raw)
+		t := strings.Fields(line)
+		if len(t) == 0 {
+			continue
+		}
+		switch t[0] {
+		case "run":
+			line += " => " + status
+		case "sink", "snap":
+			id := int(atoi(t[1]))
+			if svc == nil || id < 0 || id >= len(keys) {
+				line += " => none"
+				break
+			}
+			fin := svc.finals(keys[id])
+			if t[0] == "sink" {
+				line += " => " + strconv.Itoa(len(fin)) + " " + strings.Join(fin, " ")
+			} else {
+				sn := svc.snapshots(keys[id])
+				if strings.Join(sn, " ") == strings.Join(fin, " ") {
+					line += " => same"
+				} else {
+					line += " => " + strconv.Itoa(len(sn)) + " " + strings.Join(sn, " ")
+				}
+			}
+			line = strings.TrimRight(line, " ")
+		}
+		out = append(out, line)
+	}
+	return out
+}
+
+func emit(out *kit.Out, id string, lines []string) {
+	out.Line("case", id)
+	for _, l := range lines {
+		out.Line(l)
+	}
+	out.Line("end")
+	out.Flush()
+}
+
+// Run: `vh-c10 -seed S -n N [-tier thorough]` generates; `vh-c10 -ops file` re-executes the cases of a file.
 func Run(args []string) int {
-	fmt.Fprintln(os.Stderr, "c10: harness not implemented yet")
-	return 3
+	f := kit.ParseFlags(args)
+	out := kit.NewOut()
+	defer out.Flush()
+	if f.Ops != "" {
+		lines, err := kit.ReadLines(f.Ops)
+		if err != nil {
+			fmt.Fprintln(os.Stderr, err)
+			return 2
+		}
+		var cur []string
+		id := ""
+		for _, l := range lines {
+			t := strings.Fields(l)
+			switch {
+			case len(t) == 2 && t[0] == "case":
+				id, cur = t[1], nil
+			case len(t) == 1 && t[0] == "end":
+				emit(out, id, execCase(cur))
+			default:
+				cur = append(cur, l)
+			}
+		}
+		return 0
+	}
+	r := kit.NewRand(f.Seed)
+	for i := 0; i < f.N; i++ {
+		emit(out, fmt.Sprintf("g%d", i), execCase(genCase(r.Fork(), i, f.Tier)))
+	}
+	return 0
 }
